@@ -70,9 +70,13 @@ BENIGN_FOR_DRIVER = {"c2p_corrupt_body", "c2p_corrupt_csum", "spurious_nack",
                      "p2c_corrupt_high", "p2c_corrupt_csum", "slow_ack"}
 
 
-def gen_payload(ch, maxlen=12):
-    n = ch.weighted([2, 4, 4, 3, 3, 2, 2, 1, 1, 1, 1, 1, 1][: maxlen + 1],
-                    "plen")
+def gen_payload(ch, maxlen=12, long_ok=False):
+    if long_ok and ch.chance(1, 3, "longpayload"):
+        # bursts well beyond any plausible buffer size (memory dumps)
+        n = ch.pick([40, 130, 260, 520, 1100], "longlen")
+    else:
+        n = ch.weighted([2, 4, 4, 3, 3, 2, 2, 1, 1, 1, 1, 1, 1][: maxlen + 1],
+                        "plen")
     out = []
     for _ in range(n):
         if ch.chance(3, 8, "special"):
@@ -97,6 +101,8 @@ def gen_config(ch):
     cfg["horizon_us"] = ch.pick([0, 1000], "horizon")
     cfg["weighted_sched"] = ch.weighted([1, 1], "wsched")
     cfg["ack_delay_us"] = ch.pick([0, 2000, 50000], "ackdelay")
+    cfg["long_payloads"] = bool(ch.chance(1, 8, "longrun"))
+    lp = cfg["long_payloads"]
     ncallers = 1 + ch.weighted([4, 3, 1], "ncallers")
     cfg["callers"] = []
     for _ in range(ncallers):
@@ -105,11 +111,11 @@ def gen_config(ch):
         for _ in range(nops):
             retries = 1 + ch.weighted([1, 2, 2, 1, 1, 1, 1, 1, 1, 3], "retries")
             gap = ch.pick([0, 0, 3000, 700000], "gap")
-            ops.append((gen_payload(ch), retries, gap))
+            ops.append((gen_payload(ch, long_ok=lp), retries, gap))
         cfg["callers"].append(ops)
     npeer = ch.weighted([2, 3, 3, 2, 1], "npeer")
     cfg["peer_packets"] = [(ch.pick([0, 500, 30000, 400000, 1500000], "pt"),
-                            gen_payload(ch)) for _ in range(npeer)]
+                            gen_payload(ch, long_ok=lp)) for _ in range(npeer)]
     # topology: 0 = RspHandler against the reference peer (A2),
     #           1 = GdbDebugDriver on top of it against a stub server (B)
     cfg["topology"] = ch.weighted([3, 1], "topology")
@@ -134,7 +140,10 @@ def gen_config(ch):
                 addr = ch.pick([0, 0x64, 0x1000, 0x2A, 0x23, 0x7D24],
                                "b_addr")
                 if k == "read_mem":
-                    ops.append((k, addr, 1 + ch.draw(4, "b_size")))
+                    size = 1 + ch.draw(4, "b_size")
+                    if lp and ch.chance(1, 2, "b_bigread"):
+                        size = ch.pick([70, 128, 300, 600], "b_bigsize")
+                    ops.append((k, addr, size))
                 elif k == "write_mem":
                     n = 1 + ch.draw(3, "b_wlen")
                     ops.append((k, addr, [ch.pick([0x23, 0x24, 0x7D, 0x2A, 1,
